@@ -4181,16 +4181,18 @@ def macroexpand_1(form: ReaderForm) -> ReaderForm:
     ctx = AnalyzerContext(
         "<Macroexpand>", should_macroexpand=False, allow_unresolved_symbols=True
     )
-    maybe_macro = analyze_form(ctx, form)
-    if maybe_macro.op == NodeOp.INVOKE:
-        assert isinstance(maybe_macro, Invoke)
-
-        fn = maybe_macro.fn
-        if fn.op == NodeOp.VAR and isinstance(fn, VarRef) and _is_macro(fn.var):
-            assert isinstance(form, ISeq)
-            macro_env = ctx.symbol_table.as_env_map()
-            return fn.var.value(macro_env, form, *form.rest)
-    return maybe_macro.form
+    if isinstance(form, ISeq) and form != llist.EMPTY:
+        # Only the head of the form decides whether it is a macro invocation. Child
+        # forms are deliberately not analyzed: they may only become valid once the
+        # macros they use are expanded (e.g. a `recur` in the body of a `when`).
+        head = form.first
+        if isinstance(head, sym.Symbol) and head not in _SPECIAL_FORM_HANDLERS:
+            fn = _analyze_form(head, ctx)
+            if fn.op == NodeOp.VAR and isinstance(fn, VarRef) and _is_macro(fn.var):
+                macro_env = ctx.symbol_table.as_env_map()
+                return fn.var.value(macro_env, form, *form.rest)
+        return form
+    return analyze_form(ctx, form).form
 
 
 def macroexpand(form: ReaderForm) -> ReaderForm:
